@@ -198,6 +198,9 @@ s_append_writer = Contract(
                        "for j in range(len(old.self.data)))",
         "expected_count_recorded":
             "self.counters[self.size - 2] == (kwargs['counter'] if 'counter' in kwargs else 1)",
+        "other_counts_kept": "all(implies(k in old.self.counters and k != self.size - 2, "
+                             "k in self.counters and self.counters[k] == old.self.counters[k]) "
+                             "for k in range(0, 1501))",
         "writer_recorded": "len(self.on_the_fly) == len(old.self.on_the_fly) + 1 and "
                            "self.on_the_fly[len(old.self.on_the_fly)] == (old.self.size, self.size, cmd)",
         "other_writers_kept": "all(self.on_the_fly[k] == old.self.on_the_fly[k] "
@@ -247,6 +250,12 @@ s_append_fmmu = Contract(
                           "self.data[len(self.data) - 1][4] == logical_addr + 0x800 and "
                           "len(self.data[len(self.data) - 1]) == 5 and "
                           "self.goff[len(self.data) - 1] == result[1])",
+        # (the count a datagram is appended with is what append records in
+        # `counters` at the datagram's working-counter position: its own clause)
+        "read_datagram_expects_one_count_per_reading_terminal":
+            "implies(self.fmmu_in_size != 0, self.data[len(old.self.data)][2] == self.fmmu_in_count)",
+        "write_datagram_expects_one_count_per_writing_terminal":
+            "implies(self.fmmu_out_size != 0, self.data[len(self.data) - 1][2] == self.fmmu_out_count)",
         "count": "len(self.data) == len(old.self.data) + (1 if self.fmmu_in_size != 0 else 0) "
                  "+ (1 if self.fmmu_out_size != 0 else 0)",
         "others_kept": "all(self.data[j] == old.self.data[j] and self.goff[j] == old.self.goff[j] "
